@@ -219,7 +219,7 @@ package crypto
 // g2vecValid(bytes, n): the n*96 bytes are the canonical encodings of n points of G2
 // vssInv: representation invariant of a plain Feldman VSS instance
 //@ pred vssShape(s) = s != nil && commonOK(s.dkgCommon) && obj(s.dkgCommon) != obj(s) && s.dealerIndex < s.size
-//@ pred vssInv(s) = vssShape(s) && (s.vAReceived ==> len(s.vA) == s.threshold+1 && len(s.y) == s.size) && (s.validKey ==> s.vAReceived && s.xReceived)
+//@ pred vssInv(s) = vssShape(s) && (s.vAReceived ==> len(s.vA) == s.threshold+1 && len(s.y) == s.size) && (s.validKey ==> s.vAReceived && s.xReceived) && (s.running && s.myIndex == s.dealerIndex ==> len(s.a) == s.threshold+1)
 
 //@ func (*feldmanVSSstate).init mode int props C10
 //@ requires s != nil && s.dkgCommon != nil && obj(s.dkgCommon) != obj(s)
@@ -244,6 +244,7 @@ package crypto
 //@ assigns *s, s.running, s.processor.nPrivate, s.processor.nBroadcast, s.processor.sentComplaint[:], s.processor.sentAnswer[:], s.processor.sentVector[:]
 //@ ensures [reject-running] old(s.running) ==> iserr(result, *dkgInvalidStateTransitionError) && nothingAssigned()
 //@ ensures [started] !old(s.running) && result == nil ==> s.running
+//@ ensures [dealer-ready] s.running && s.myIndex == s.dealerIndex ==> len(s.a) == s.threshold+1
 //@ ensures [inv] vssInv(s)
 
 //@ func (*feldmanVSSstate).generateShares mode int props C06 C09
@@ -315,3 +316,134 @@ package crypto
 //@ assigns nothing
 //@ ensures result != nil && fresh(result)
 //@ ensures p != nil ==> result.point == *p
+
+// ---------------------------------------------------------------------------------------------
+// Feldman VSS with qualification (one dealer instance)
+
+//@ pred qualShape(s) = s != nil && vssShape(s.feldmanVSSstate) && obj(s) != obj(s.feldmanVSSstate) && obj(s) != obj(s.dkgCommon) && s.complaints != nil
+//@ pred complaintsOK(s) = forall(k, 0, 256, has(s.complaints, k) ==> k < s.size && s.complaints[k] != nil && typed(s.complaints[k])) && forall(j, 0, 256, forall(k, 0, 256, has(s.complaints, j) && has(s.complaints, k) && j != k ==> s.complaints[j] != s.complaints[k]))
+//@ pred ownComplaint(s) = has(s.complaints, s.myIndex) && s.complaints[s.myIndex].received
+//@ pred qualPhase(s) = (s.complaintsTimeout ==> s.sharesTimeout) && (s.vAReceived && !s.disqualified ==> len(s.vA) == s.threshold+1 && len(s.y) == s.size) && (s.running && s.myIndex == s.dealerIndex ==> len(s.a) == s.threshold+1) && (s.sharesTimeout && !s.disqualified ==> s.vAReceived) && (ownComplaint(s) ==> s.xReceived || s.sharesTimeout)
+//@ pred qualInv(s) = qualShape(s) && complaintsOK(s) && qualPhase(s)
+// what a message handler may never touch: the phase of the instance
+//@ pred phaseKept(s) = unchanged(s.running) && unchanged(s.sharesTimeout) && unchanged(s.complaintsTimeout) && unchanged(s.feldmanVSSstate) && unchanged(s.dkgCommon) && unchanged(s.dealerIndex) && unchanged(s.size) && unchanged(s.threshold) && unchanged(s.myIndex) && unchanged(s.processor) && (old(s.disqualified) ==> s.disqualified)
+
+//@ func (*feldmanVSSQualState).init mode int props C10
+//@ requires s != nil && s.feldmanVSSstate != nil && s.dkgCommon != nil && obj(s.dkgCommon) != obj(s.feldmanVSSstate) && obj(s) != obj(s.feldmanVSSstate) && obj(s) != obj(s.dkgCommon)
+//@ assigns s.running, s.y, s.xReceived, s.vAReceived, s.complaints
+//@ ensures !s.running && !s.xReceived && !s.vAReceived && len(s.y) == 0 && s.complaints != nil && fresh(s.complaints) && len(s.complaints) == 0 && forall(k, 0, 256, !has(s.complaints, k))
+
+//@ func NewFeldmanVSSQual mode int props C10 C09
+//@ assigns nothing
+//@ ensures [reject] (size < 2 || size > 254 || myIndex >= size || dealerIndex >= size || myIndex < 0 || dealerIndex < 0 || threshold >= size || threshold < 1) ==> result0 == nil && iserr(result1, *invalidInputsError)
+//@ ensures [accept] !(size < 2 || size > 254 || myIndex >= size || dealerIndex >= size || myIndex < 0 || dealerIndex < 0 || threshold >= size || threshold < 1 || processor == nil) ==> result1 == nil && typeis(result0, *feldmanVSSQualState) && qualShape(unbox(result0, *feldmanVSSQualState)) && !unbox(result0, *feldmanVSSQualState).running && !unbox(result0, *feldmanVSSQualState).sharesTimeout && !unbox(result0, *feldmanVSSQualState).complaintsTimeout && !unbox(result0, *feldmanVSSQualState).disqualified
+
+// Start is promoted from feldmanVSSstate (see there: its [dealer-ready] clause is what the Qual invariant needs).
+
+//@ func (*feldmanVSSQualState).NextTimeout mode int props C10 C08 C09
+//@ requires qualInv(s)
+//@ assigns *s, obj(s.complaints), ghost(s.processor)
+//@ ensures [reject-idle] !old(s.running) ==> iserr(result, *dkgInvalidStateTransitionError) && nothingAssigned()
+//@ ensures [reject-third] old(s.running) && old(s.complaintsTimeout) ==> iserr(result, *dkgInvalidStateTransitionError) && nothingAssigned()
+//@ ensures [first] old(s.running) && !old(s.sharesTimeout) ==> result == nil && s.sharesTimeout && !s.complaintsTimeout
+//@ ensures [second] old(s.running) && old(s.sharesTimeout) && !old(s.complaintsTimeout) ==> result == nil && s.sharesTimeout && s.complaintsTimeout
+//@ ensures [inv] qualInv(s) && unchanged(s.running) && unchanged(s.feldmanVSSstate) && (old(s.disqualified) ==> s.disqualified)
+//@ ensures [missing-vector-disqualifies] old(s.running) && !old(s.sharesTimeout) && !old(s.vAReceived) ==> s.disqualified
+//@ ensures [too-many-complaints-disqualify] old(s.running) && old(s.sharesTimeout) && !old(s.complaintsTimeout) && old(len(s.complaints)) > s.threshold ==> s.disqualified
+
+//@ func (*feldmanVSSQualState).setSharesTimeout mode int props C08 C09
+//@ requires qualInv(s) && s.running && !s.disqualified && !s.sharesTimeout
+//@ assigns *s, obj(s.complaints), ghost(s.processor)
+//@ ensures s.sharesTimeout && unchanged(s.complaintsTimeout) && unchanged(s.feldmanVSSstate) && unchanged(s.complaints)
+//@ ensures [missing-vector-disqualifies] !old(s.vAReceived) ==> s.disqualified
+//@ ensures [inv] qualInv(s)
+
+//@ func (*feldmanVSSQualState).setComplaintsTimeout mode int props C08 C09
+//@ requires qualInv(s) && s.running && !s.disqualified && s.sharesTimeout
+//@ assigns *s, ghost(s.processor)
+//@ ensures s.complaintsTimeout && unchanged(s.sharesTimeout) && unchanged(s.feldmanVSSstate) && unchanged(s.complaints)
+//@ ensures [too-many-complaints-disqualify] len(s.complaints) > s.threshold ==> s.disqualified
+//@ ensures [inv] qualInv(s)
+
+//@ func (*feldmanVSSQualState).End mode int props C10 C08 C09
+//@ requires qualInv(s)
+//@ assigns s.running, s.disqualified, ghost(s.processor)
+//@ ensures [reject-idle] !old(s.running) ==> iserr(result3, *dkgInvalidStateTransitionError) && nothingAssigned() && result0 == nil && result1 == nil && len(result2) == 0
+//@ ensures [reject-early] old(s.running) && (!old(s.sharesTimeout) || !old(s.complaintsTimeout)) ==> iserr(result3, *dkgInvalidStateTransitionError) && nothingAssigned()
+//@ ensures [ends] old(s.running) && old(s.sharesTimeout) && old(s.complaintsTimeout) ==> !s.running
+//@ ensures [no-keys-if-disqualified] old(s.running && s.sharesTimeout && s.complaintsTimeout && s.disqualified) ==> iserr(result3, *dkgFailureError) && result0 == nil && result1 == nil && len(result2) == 0
+//@ ensures [class] old(s.running && s.sharesTimeout && s.complaintsTimeout) && result3 != nil ==> iserr(result3, *dkgFailureError) && result0 == nil
+//@ ensures [keys-only-if-qualified] result3 == nil ==> !s.disqualified && forall(k, 0, 256, has(s.complaints, k) && s.complaints[k].received ==> s.complaints[k].answerReceived)
+//@ loop 1 invariant [no-unanswered-so-far] forall(k, 0, 256, visited(k) ==> !(s.complaints[k].received && !s.complaints[k].answerReceived))
+//@ loop 1 invariant !s.disqualified && !s.running
+//@ loop 2 invariant len(y) == s.size && len(s.y) == s.size && fresh(y) && !s.disqualified && !s.running
+
+//@ func (*feldmanVSSQualState).HandleBroadcastMsg mode int props C10 C08 C09
+//@ requires qualInv(s)
+//@ assigns *s, *s.feldmanVSSstate, obj(s.complaints), alltyped(complaint), ghost(s.processor)
+//@ ensures [reject-idle] !old(s.running) ==> iserr(result, *dkgInvalidStateTransitionError) && nothingAssigned()
+//@ ensures [reject-origin] old(s.running) && (orig < 0 || orig >= s.size) ==> iserr(result, *invalidInputsError) && nothingAssigned()
+//@ ensures [accept] old(s.running) && 0 <= orig && orig < s.size ==> result == nil
+//@ ensures [inv] qualInv(s) && phaseKept(s)
+
+//@ func (*feldmanVSSQualState).HandlePrivateMsg mode int props C10 C08 C09
+//@ requires qualInv(s)
+//@ assigns *s, *s.feldmanVSSstate, obj(s.complaints), alltyped(complaint), ghost(s.processor)
+//@ ensures [reject-idle] !old(s.running) ==> iserr(result, *dkgInvalidStateTransitionError) && nothingAssigned()
+//@ ensures [reject-origin] old(s.running) && (orig < 0 || orig >= s.size) ==> iserr(result, *invalidInputsError) && nothingAssigned()
+//@ ensures [accept] old(s.running) && 0 <= orig && orig < s.size ==> result == nil
+//@ ensures [inv] qualInv(s) && phaseKept(s)
+
+//@ func (*feldmanVSSQualState).ForceDisqualify mode int props C10 C09
+//@ requires qualInv(s)
+//@ assigns s.disqualified
+//@ ensures [reject-idle] !old(s.running) ==> iserr(result, *dkgInvalidStateTransitionError) && nothingAssigned()
+//@ ensures [reject-index] old(s.running) && (participant < 0 || participant >= s.size) ==> iserr(result, *invalidInputsError) && nothingAssigned()
+//@ ensures [accept] old(s.running) && 0 <= participant && participant < s.size ==> result == nil && (participant == s.dealerIndex ==> s.disqualified)
+//@ ensures [inv] qualInv(s) && (old(s.disqualified) ==> s.disqualified)
+
+//@ func (*feldmanVSSQualState).receiveShare mode int props C08 C09
+//@ requires qualInv(s) && s.running && !s.disqualified
+//@ assigns *s, *s.feldmanVSSstate, obj(s.complaints), ghost(s.processor)
+//@ ensures [inv-shape] qualShape(s)
+//@ ensures [inv-complaints] complaintsOK(s)
+//@ ensures [inv-phase] qualPhase(s)
+//@ ensures [inv-kept] phaseKept(s)
+
+//@ func (*feldmanVSSQualState).receiveVerifVector mode int props C08 C07 C09
+//@ requires qualInv(s) && s.running && !s.disqualified
+//@ assigns *s, *s.feldmanVSSstate, obj(s.complaints), ghost(s.processor)
+//@ ensures [inv] qualInv(s) && phaseKept(s)
+//@ ensures [bad-size-disqualifies] old(!s.sharesTimeout && !s.vAReceived && origin == s.dealerIndex && len(data) != 96*(s.threshold+1)) ==> s.disqualified
+//@ ensures [bad-vector-disqualifies] old(!s.sharesTimeout && !s.vAReceived && origin == s.dealerIndex && len(data) == 96*(s.threshold+1) && !g2vecValid(data, s.threshold+1)) ==> s.disqualified
+//@ loop 1 invariant qualInv(s) && phaseKept(s) && !s.disqualified && s.vAReceived && len(s.vA) == s.threshold+1 && len(s.y) == s.size
+
+//@ func (*feldmanVSSQualState).buildAndBroadcastComplaint mode int props C08 C09
+//@ requires qualInv(s) && s.running && !s.disqualified
+//@ requires [at-most-one-complaint] !ownComplaint(s)
+//@ assigns obj(s.complaints), ghost(s.processor)
+//@ ensures has(s.complaints, s.myIndex) && fresh(s.complaints[s.myIndex]) && typed(s.complaints[s.myIndex]) && s.complaints[s.myIndex].received && !s.complaints[s.myIndex].answerReceived
+//@ ensures forall(k, 0, 256, k != s.myIndex ==> has(s.complaints, k) == old(has(s.complaints, k)) && s.complaints[k] == old(s.complaints[k]))
+//@ ensures len(s.complaints) == old(len(s.complaints)) + ite(old(has(s.complaints, s.myIndex)), 0, 1)
+
+//@ func (*feldmanVSSQualState).buildAndBroadcastComplaintAnswer mode int props C08 C09
+//@ requires qualInv(s) && s.running && s.myIndex == s.dealerIndex && has(s.complaints, complainee)
+//@ requires [answer-once] !s.complaints[complainee].answerReceived
+//@ assigns alltyped(complaint), ghost(s.processor)
+//@ ensures s.complaints[complainee].answerReceived && unchanged(s.complaints[complainee].received)
+//@ ensures forall(k, 0, 256, has(s.complaints, k) && k != complainee ==> unchanged(s.complaints[k].received) && unchanged(s.complaints[k].answerReceived))
+
+//@ func (*feldmanVSSQualState).checkComplaint mode int props C08 C09
+//@ requires qualShape(s) && c != nil && complainer < len(s.y)
+//@ assigns nothing
+
+//@ func (*feldmanVSSQualState).receiveComplaint mode int props C08 C09
+//@ requires qualInv(s) && s.running && !s.disqualified && origin != s.myIndex && origin < s.size
+//@ assigns *s, obj(s.complaints), alltyped(complaint), ghost(s.processor)
+//@ ensures [inv] qualInv(s) && phaseKept(s)
+
+//@ func (*feldmanVSSQualState).receiveComplaintAnswer mode int props C08 C09
+//@ requires qualInv(s) && s.running && !s.disqualified
+//@ assigns *s, *s.feldmanVSSstate, obj(s.complaints), alltyped(complaint), ghost(s.processor)
+//@ ensures [inv] qualInv(s) && phaseKept(s)
+//@ ensures [bad-answer-size-disqualifies] old(origin == s.dealerIndex && len(data) != 33) ==> s.disqualified
